@@ -106,7 +106,12 @@ func VerifC13_Thrift() {
 		in = vrt.PutMapHdr(vrt.PutField(in, vrt.TMAP, 11), vrt.TI64, vrt.TSTRING, cnt)
 		for i := 0; i < cnt; i++ {
 			k := int64(vrt.U64())
-			vrt.Assume(k > -100 && k < 100)
+			if i == 0 && vrt.Param("RANGE") != 0 {
+				// the first key: a boundary value of the 32- and 64-bit ranges instead of a small symbolic one
+				k = []int64{0, 2147483647, 2147483648, -2147483649, 9223372036854775807, -9223372036854775808, 4294967296}[vrt.Param("RANGE")]
+			} else {
+				vrt.Assume(k > -100 && k < 100)
+			}
 			in = vrt.PutString(vrt.PutBE64(in, k), []byte{'v'})
 		}
 	case 12:
